@@ -24,6 +24,21 @@ func runC18(p *Prog, r *Report) {
 	c18R3(p, r)
 	c18R4(p, r)
 	c18R5(p, r)
+	// R6: an accepted configuration may pair any server with any client and give them different
+	// MTUs; the relay buffers for the pair are sized by zerocopy.UDPRelayHeadroom / MaxHeadroom from the
+	// two codecs' declared headrooms. If those combinators mix up front and rear room, some accepted
+	// pairs (a no-tag server relaying to an SS2022 client with a larger MTU) overrun the buffer — a
+	// run-time invariant violation no load-time check could refuse. Same analysis as C05-R5.
+	{
+		sub := NewReport("C18", "quick")
+		c05Combinators(p, sub)
+		r.Rule("C18-R6", "relay buffer headroom for every accepted server/client pair: "+sub.RuleDocs["C05-R5"])
+		for _, o := range sub.Obs {
+			o.Rule = "C18-R6"
+			r.Obs = append(r.Obs, o)
+		}
+		r.Floor("C18-R6", 2)
+	}
 }
 
 // ---------------------------------------------------------------- R1
